@@ -20,6 +20,9 @@ CLAIMS = {
 
  "C06": ("Structural necessary conditions of exact depacketisation decided on every path of the FU and aggregation handlers (sibling rules for H.264/H.265): guarded fragment append, sequence-gap reset, emission only at the end bit with cleared state, aggregated units copied verbatim after a size check, one RTP timestamp per packet. Does not decide byte equality or timestamp arithmetic.",
          "custom SSA path-state (typestate) + sibling-agreement analysis", "DESIGN.md §3 C06"),
+
+ "C07": ("Structural necessary conditions of panic containment: every goroutine root that reaches publisher/camera parsing has a recover registered first; per-packet code in the publishing session indexes packet bytes only where the Go compiler's prove pass shows the index in range; converter loops drop a bad item under a per-item recover; parameter-set decoders convert panics to errors; aggregation scans make progress. Does not decide correctness of later conversion.",
+         "call-graph reachability + SSA dominance + compiler bounds-check-elimination report (no execution)", "DESIGN.md §3 C07"),
 }
 NA = {
  "C16": "pure input/output language equivalence of the pattern matcher over all pattern/path pairs: truth lives in string values, no structural clause implies it; deciding it needs exhaustive evaluation (execution), a different technique family",
